@@ -17,11 +17,25 @@ FUNCTIONS = [
 def spec(tier: str, seed: int, which: str = "C18") -> Spec:
     K = 2 if tier == "quick" else 3
     ops = H.NULLARY + H.UNARY + H.BINARY
-    fams = [Family(f"K{K}-first-{op}", H.make_harness(K, which, [op]), per_path_timeout=3.0, variables="selectors: forest, operation, receiver, argument per step") for op in ops]
+    var = "selectors: forest, operation, receiver, argument per step"
+    if K == 2:
+        fams = [Family(f"K2-first-{op}", H.make_harness(2, which, [op]), per_path_timeout=3.0, variables=var) for op in ops]
+    else:
+        fams = [Family(f"K3-first-{op}-forest{f}", H.make_harness(3, which, [op], forest=f, last_ops=H.THIRD_OPS), per_path_timeout=3.0, variables=var) for op in ops for f in range(len(H.FORESTS))]
+    # guided families (C18 only): a stale predecessor is created first, then a longer history over a
+    # reduced alphabet follows
+    KS = 4
+    later = H.STALE_LATER_QUICK if tier == "quick" else H.STALE_LATER
+    firsts = ("replace-noop",) if tier == "quick" else ("replace-noop", "replace-property", "duplicate-detached", "transform-inc")
+    if which == "C18":
+        for op in firsts:
+            for f in range(len(H.FORESTS)):
+                for r in range(5):
+                    fams.append(Family(f"stale-K{KS}-{op}-forest{f}-h{r}", H.make_harness(KS, which, [op], later, forest=f, first_recv=r), per_path_timeout=3.0, variables="selectors: receiver per step; operations after the first from a reduced alphabet"))
     return Spec(
         families=fams,
         functions=FUNCTIONS,
-        bounds={"history_length": K, "forests": len(H.FORESTS), "operations": ops, "handles": f"<= {H.MAX_HANDLES} (designated nodes of the initial forest plus results)"},
+        bounds={"history_length": f"{K} (thorough: the third operation from {H.THIRD_OPS})" if K == 3 else 2, "guided_histories": f"C18 only, length {KS}: first operation in {firsts}, later operations in {later}", "forests": len(H.FORESTS), "operations": ops, "handles": f"<= {H.MAX_HANDLES} (designated nodes of the initial forest plus results)"},
         rule="a case = (initial forest, K operations each with receiver / argument); after every successful operation the invariant is evaluated on every attached node; distinct by (forest, history text)",
         variables="selectors only (bounded exploration of operation histories); per-path watchdog 3 s",
         assumptions=[
